@@ -32,6 +32,13 @@ WM = WithMethod()
 def s_perm(a, b, c, d):
     return 1
 
+RSMALL = reprlib.Repr()
+RSMALL.maxdict = 2
+
+@icontract.require(lambda a: a > 100, a_repr=RSMALL)
+def s_perm_many(a, b, c, d, e, f, **extra):
+    return 1
+
 @icontract.require(lambda a: a > 100)
 def s_ticket(a, b, c, d):
     return 1
@@ -196,6 +203,12 @@ def main():
             if rep == 1:
                 violation_message(ns["s_hash"], tags={"p"}, cfg={})
     same("perm", msgs)
+    # 1a. ... more arguments than any size limit of the contract's a_repr (limits bound single values, not the list of arguments),
+    # passed by keyword in rotated / reversed orders, some of them through **extra
+    vals6 = {"a": 1, "b": 2, "c": 3, "d": 4, "e": 5, "f": 6, "g": 7, "h": 8}
+    names6 = list(vals6)
+    orders = [names6[i:] + names6[:i] for i in range(len(names6))] + [list(reversed(names6))]
+    same("perm_many", [violation_message(ns["s_perm_many"], **{k: vals6[k] for k in order}) for order in orders])
     # 1b. ... with values whose repr depends on mutable global state (a running ticket number): the values must be rendered in an
     # order which does not depend on the order of the keywords, else the text does
     class Ticket:
